@@ -754,7 +754,8 @@ func nonNegParam(info *types.Info, fd *ast.FuncDecl, p types.Object) bool {
 						}
 					}
 				}
-				return false
+				// the index of a loop that counts up from a non-negative constant
+				return countingLoop(info, file, info.Uses[id], call) != nil
 			}
 			switch {
 			case nonNegConst(arg), isKey(arg):
@@ -768,6 +769,98 @@ func nonNegParam(info *types.Info, fd *ast.FuncDecl, p types.Object) bool {
 		})
 	}
 	return calls > 0 && good
+}
+
+// countingLoop: the enclosing loop `for k := C; …; k++` (C a non-negative constant) whose index k
+// is the object o and is written by nothing but its own post statement; nil if there is none.
+func countingLoop(info *types.Info, file ast.Node, o types.Object, at ast.Node) *ast.ForStmt {
+	var found *ast.ForStmt
+	ast.Inspect(file, func(n ast.Node) bool {
+		fs, ok := n.(*ast.ForStmt)
+		if !ok || fs.Init == nil || fs.Post == nil || !(fs.Body.Pos() <= at.Pos() && at.End() <= fs.Body.End()) {
+			return true
+		}
+		init, ok := fs.Init.(*ast.AssignStmt)
+		if !ok || init.Tok != token.DEFINE || len(init.Lhs) != 1 || len(init.Rhs) != 1 {
+			return true
+		}
+		if id, ok := init.Lhs[0].(*ast.Ident); !ok || info.Defs[id] != o {
+			return true
+		}
+		if tv, ok := info.Types[init.Rhs[0]]; !ok || tv.Value == nil || strings.HasPrefix(tv.Value.String(), "-") {
+			return true
+		}
+		post, ok := fs.Post.(*ast.IncDecStmt)
+		if !ok || post.Tok != token.INC {
+			return true
+		}
+		if id, ok := post.X.(*ast.Ident); !ok || info.Uses[id] != o {
+			return true
+		}
+		clean := true
+		ast.Inspect(fs.Body, func(m ast.Node) bool {
+			switch st := m.(type) {
+			case *ast.AssignStmt:
+				for _, l := range st.Lhs {
+					if id, ok := ast.Unparen(l).(*ast.Ident); ok && info.Uses[id] == o {
+						clean = false
+					}
+				}
+			case *ast.IncDecStmt:
+				if id, ok := ast.Unparen(st.X).(*ast.Ident); ok && info.Uses[id] == o {
+					clean = false
+				}
+			case *ast.UnaryExpr:
+				if st.Op == token.AND {
+					if id, ok := ast.Unparen(st.X).(*ast.Ident); ok && info.Uses[id] == o {
+						clean = false
+					}
+				}
+			}
+			return true
+		})
+		if clean {
+			found = fs
+		}
+		return true
+	})
+	return found
+}
+
+// countsBelowLen: the loop's condition has the conjunct k < len(S) with S naming the field bf.
+func countsBelowLen(info *types.Info, fs *ast.ForStmt, o types.Object, bf types.Object) bool {
+	ok := false
+	var conj func(e ast.Expr)
+	conj = func(e ast.Expr) {
+		e = ast.Unparen(e)
+		be, isBin := e.(*ast.BinaryExpr)
+		if !isBin {
+			return
+		}
+		if be.Op == token.LAND {
+			conj(be.X)
+			conj(be.Y)
+			return
+		}
+		if be.Op != token.LSS {
+			return
+		}
+		id, isID := ast.Unparen(be.X).(*ast.Ident)
+		call, isCall := ast.Unparen(be.Y).(*ast.CallExpr)
+		if !isID || !isCall || info.Uses[id] != o || len(call.Args) != 1 {
+			return
+		}
+		if fid, isF := call.Fun.(*ast.Ident); !isF || fid.Name != "len" {
+			return
+		}
+		if se, isSel := ast.Unparen(call.Args[0]).(*ast.SelectorExpr); isSel && info.Uses[se.Sel] == bf {
+			ok = true
+		}
+	}
+	if fs.Cond != nil {
+		conj(fs.Cond)
+	}
+	return ok
 }
 
 // constBoundedIndex: A[v] with A of array type [N]T (or *[N]T) and v an int variable whose every
@@ -1168,6 +1261,10 @@ func inRangeParam(info *types.Info, fd *ast.FuncDecl, p types.Object, base ast.E
 					if kid, isID := rs.Key.(*ast.Ident); isID && info.Defs[kid] == info.Uses[id] && rs.Body.Pos() <= call.Pos() && call.End() <= rs.Body.End() && fieldOf(rs.X) == bf {
 						okArg = true
 					}
+				}
+				// or the index of `for k := C; k < len(S'); k++`
+				if fs := countingLoop(info, file, info.Uses[id], call); fs != nil && countsBelowLen(info, fs, info.Uses[id], bf) {
+					okArg = true
 				}
 			}
 			if !okArg {
